@@ -22,8 +22,11 @@ What is proved here (for all inputs, by induction on the row lists; no bound):
 -/
 import Gms.Lemmas.Phys
 import Gms.Lemmas.Merge
+import Gms.Lemmas.MergeLeft
+import Gms.Lemmas.PhysKeys
 import Gms.Lemmas.Rel
 import Gms.Model.PhysRegions
+import Gms.Model.PhysKeys
 import Gms.Generated.C01
 
 namespace Gms.C01
@@ -526,7 +529,278 @@ example : ∀ a b c : Option Int, eqB a b = true → eqB a c = true → eqB b c 
   cases a <;> cases b <;> cases c <;> simp [eqB]
   intro h1 h2; omega
 
-/-! ## 4. Regenerated facts -/
+/-! ## 4. Left outer merge join (residual filters over blocks of equal keys) -/
+
+/-- **Left outer merge join = left outer join**, same row sequence: inputs in index order on a
+nullable integer key, the comparer `l.k = r.k`, any residual filters `sel`. Whatever the order of
+passing and failing rows of `sel` inside a block of equal right keys, and whatever the previous left
+row did, a left row gets its NULL-extended row iff NO row of its block passes (the state
+`mergeJoinIter.leftMatched` has to carry exactly that; the driver runs this model on every plain
+`LeftOuterMergeJoin(Idx, Idx)` plan and compares it with the engine). -/
+theorem phys_merge_left (kl kr : Row → Option Int) (sel : Row → Row → Bool) (rw : Nat) (L R : List Row)
+    (hL : SortedBy kl L) (hR : SortedBy kr R) :
+    mergeJoin true (mergeCmp kl kr) (fun a => (kl a).isNone) sel rw L R
+      = leftJoin (mergeCond kl kr sel) rw L R :=
+  mergeGo_eq_leftJoin kl kr sel rw (mergeFuel L R) L R (by simp [mergeFuel]) hL hR
+
+def intKey (i : Nat) (r : Row) : Option Int := match r.getD i .null with | .int v => some v | _ => none
+
+/-- Non-vacuity, on the input class of the stream `mres`: a block of three right rows with key 1 on
+which the residual `l.x > r.y` passes, passes and FAILS LAST (pass … fail), one where it fails first,
+left rows sharing a key, NULL keys: the left rows (1,5) and (1,6) matched, so they get no NULL row. -/
+example :
+    mergeJoin true (mergeCmp (intKey 0) (intKey 0)) (fun a => (intKey 0 a).isNone)
+      (fun a b => decide ((intKey 1 a).getD 0 > (intKey 1 b).getD 0)) 2
+      [[.null, .int 0], [.int 1, .int 5], [.int 1, .int 6], [.int 2, .int 0], [.int 3, .int 1]]
+      [[.null, .int 9], [.int 1, .int 3], [.int 1, .int 4], [.int 1, .int 7], [.int 2, .int 5], [.int 2, .int 9]]
+    = [[.null, .int 0, .null, .null],
+       [.int 1, .int 5, .int 1, .int 3], [.int 1, .int 5, .int 1, .int 4],
+       [.int 1, .int 6, .int 1, .int 3], [.int 1, .int 6, .int 1, .int 4],
+       [.int 2, .int 0, .null, .null], [.int 3, .int 1, .null, .null]] := by
+  decide
+
+/-! ## 5. Join keys whose equality is not byte equality
+
+Text keys under a case/accent-insensitive collation, numeric keys of different column types: two
+stored values are `=` iff their NORMAL FORMS (`Gms.PhysKeys.normValue`) are the same value. Plan
+independence must hold for them as well: an operator that keys a map / an index / a DISTINCT by the
+stored value instead of (a function of) the normal form loses or duplicates rows. -/
+
+section Keys
+open Gms.PhysKeys
+
+/-- **Hash join keyed by the normal form = nested-loop join.** -/
+theorem phys_hash_normKey (lo : Bool) (n : Value → Value) (i j : Nat) (res : Row → Row → Tri) (rw : Nat)
+    (choice : Nat) (L R : List Row) :
+    hashJoin lo false (keyedCond n i j res) rw (fun a => n (a.getD i .null)) (fun b => n (b.getD j .null))
+        choice L R
+      = nlJoin lo false (keyedCond n i j res) rw L R := hashJoin_normKey lo n i j res rw choice L R
+
+/-- … and so is one keyed by any function of the normal form (a lossy hash of the collation
+weights, say — `hash.HashOfSimple`). -/
+theorem phys_hash_coarserKey {κ : Type} [DecidableEq κ] (lo : Bool) (n : Value → Value) (h : Value → κ)
+    (i j : Nat) (res : Row → Row → Tri) (rw : Nat) (choice : Nat) (L R : List Row) :
+    hashJoin lo false (keyedCond n i j res) rw (fun a => h (n (a.getD i .null))) (fun b => h (n (b.getD j .null)))
+        choice L R
+      = nlJoin lo false (keyedCond n i j res) rw L R := hashJoin_coarserKey lo n h i j res rw choice L R
+
+/-- Normal form of a text key under an `_ai_ci` collation / of a numeric key. -/
+def ciNorm (v : Value) : Value := (normValue .ci v).getD .null
+def numNorm (v : Value) : Value := (normValue .num v).getD .null
+
+/-- 'bob', 'BOB', 'bób' (UTF-8). -/
+def sBob : Value := .str [0x62, 0x6F, 0x62]
+def sBOB : Value := .str [0x42, 0x4F, 0x42]
+def sBob' : Value := .str [0x62, 0xC3, 0xB3, 0x62]
+def sX : Value := .str [0x78]
+
+example : ciNorm sBOB = sBob ∧ ciNorm sBob' = sBob := by decide
+example : numNorm (.str [0x31, 0x2E, 0x35, 0x30]) = .int 1500 ∧ numNorm (.str [0x2D, 0x30, 0x2E, 0x30]) = .int 0
+    ∧ numNorm (.int 1) = numNorm (.str [0x31, 0x2E, 0x30, 0x30, 0x30]) := by decide
+
+def kL1 : List Row := [[.int 1, sBob], [.int 2, sBOB], [.int 3, sBob']]
+def kR1 : List Row := [[.int 1, sBob]]
+
+/-- Non-vacuity of `phys_hash_normKey`, and the reason the stream `keq` exists: keyed by the STORED
+value (a "strings are comparable map keys anyway" fast path in `HashLookup.GetHashKey`) the hash join
+loses every left row spelled differently from its partner — except the first left row, which still
+scans the whole right side because the lookup table is published lazily. The hypothesis of
+`phys_hash_eq` (TRUE pairs agree on the key) is what fails. -/
+theorem hash_key_finer_than_equality_loses_rows :
+    hashJoin false false (keyedCond ciNorm 1 1 fun _ _ => .t) 2 (fun a => a.getD 1 .null) (fun b => b.getD 1 .null) 0 kL1 kR1
+      = [[.int 1, sBob, .int 1, sBob]]
+    ∧ nlJoin false false (keyedCond ciNorm 1 1 fun _ _ => .t) 2 kL1 kR1
+      = [[.int 1, sBob, .int 1, sBob], [.int 2, sBOB, .int 1, sBob], [.int 3, sBob', .int 1, sBob]]
+    ∧ hashJoin false false (keyedCond ciNorm 1 1 fun _ _ => .t) 2 (fun a => ciNorm (a.getD 1 .null))
+        (fun b => ciNorm (b.getD 1 .null)) 0 kL1 kR1
+      = nlJoin false false (keyedCond ciNorm 1 1 fun _ _ => .t) 2 kL1 kR1 := by
+  decide
+
+/-! ### The fold is the collations' (regenerated weights) -/
+
+def weightOf (tbl : List (Nat × Int)) (r : Nat) : Int := ((tbl.find? (·.1 == r)).map (·.2)).getD 0
+
+/-- For every case-insensitive collation the stream uses, on the stream's alphabet: the table lists
+exactly the alphabet, a rune has the weight of its fold, and the base letters have pairwise different
+— indeed increasing — weights. (Weights dumped by running the collation's `Sorter`.) -/
+theorem facts_fold_weights : ∀ c ∈ Generated.C01.ciWeights,
+    c.2.map (·.1) = alphabet
+    ∧ (∀ r ∈ alphabet, weightOf c.2 r = weightOf c.2 (foldRune r))
+    ∧ (∀ b1 ∈ baseLetters, ∀ b2 ∈ baseLetters, weightOf c.2 b1 = weightOf c.2 b2 → b1 = b2)
+    ∧ (∀ b1 ∈ baseLetters, ∀ b2 ∈ baseLetters, b1 < b2 → weightOf c.2 b1 < weightOf c.2 b2) := by
+  decide
+
+theorem fold_in_base : ∀ r ∈ alphabet, foldRune r ∈ baseLetters := by decide
+
+/-- Two runes of the alphabet have the same collation weight iff they have the same fold. -/
+theorem fold_eq_iff_weight_eq (c : String × List (Nat × Int)) (hc : c ∈ Generated.C01.ciWeights)
+    (r1 r2 : Nat) (h1 : r1 ∈ alphabet) (h2 : r2 ∈ alphabet) :
+    weightOf c.2 r1 = weightOf c.2 r2 ↔ foldRune r1 = foldRune r2 := by
+  obtain ⟨_, hw, hinj, _⟩ := facts_fold_weights c hc
+  constructor
+  · intro h
+    apply hinj _ (fold_in_base r1 h1) _ (fold_in_base r2 h2)
+    rw [← hw r1 h1, ← hw r2 h2, h]
+  · intro h
+    rw [hw r1 h1, hw r2 h2, h]
+
+example : Generated.C01.ciWeights.length = 2 := by decide
+
+/-- `HashLookup.GetHashKey`, run on typed values for every pair of key column types the stream joins:
+every pair of values that `expression.Equals` calls equal gets the same map key (the hypothesis of
+`phys_hash_eq` on the real key function), and each type pair has such pairs. -/
+theorem facts_hash_key_respects_eq :
+    Generated.C01.hashKeyBreaks = []
+    ∧ (∀ f ∈ Generated.C01.hashKeyFacts, f.2.2.2.1 = f.2.2.2.2 ∧ 0 < f.2.2.2.1)
+    ∧ Generated.C01.hashKeyFacts.length = 28 := by
+  decide
+
+/-! ### Finding 5: a hash join keyed by a row constructor hashes the parts by their bytes -/
+
+def ciCond2 (a b : Row) : Tri :=
+  Tri.and (cmpTri .eq (ciNorm (a.getD 1 .null)) (ciNorm (b.getD 1 .null)))
+    (cmpTri .eq (ciNorm (a.getD 2 .null)) (ciNorm (b.getD 2 .null)))
+
+def rawKey2 (r : Row) : Row := [r.getD 1 .null, r.getD 2 .null]
+def normKey2 (r : Row) : Row := [ciNorm (r.getD 1 .null), ciNorm (r.getD 2 .null)]
+
+def tL : List Row := [[.int 1, sBob, sX], [.int 2, sBOB, sX], [.int 3, sBob', sX]]
+def tR : List Row := [[.int 1, sBob, sX]]
+
+/-- `plan.NewHashLookup` takes `leftKeySch` from the ONE row-constructor expression, so `hash.HashOf`
+sees no string type for the parts and hashes their bytes: the model with the raw two-column key.
+Guarded statement: `phys_hash_eq` (its hypothesis holds for `normKey2`, fails for `rawKey2`). -/
+theorem finding_hash_join_tuple_key_not_by_equality :
+    ∃ (L R : List Row), hashJoin false false ciCond2 3 rawKey2 rawKey2 0 L R ≠ nlJoin false false ciCond2 3 L R :=
+  ⟨tL, tR, by decide⟩
+
+example : hashJoin false false ciCond2 3 normKey2 normKey2 0 tL tR = nlJoin false false ciCond2 3 tL tR := by decide
+example : ∀ a ∈ tL, ∀ b ∈ tR, ciCond2 a b = .t → normKey2 b = normKey2 a := by decide
+
+/-! ### Finding 6: a lookup join rounds the probe key to the index type and drops the equality -/
+
+/-- Guarded statement: dropping the equality conjunct of a lookup join is sound when "the index
+returns the row" and "the condition is TRUE" coincide. -/
+theorem phys_lookup_dropped_cond_partial {κ : Type} [DecidableEq κ] (lo : Bool) (c : Row → Row → Tri) (rw : Nat)
+    (kL kR : Row → κ) (idx : κ → List Row) (L R : List Row)
+    (hidx : ∀ k, idx k ~ R.filter (fun r => kR r = k))
+    (H : ∀ a ∈ L, ∀ b ∈ R, (c a b = .t ↔ kR b = kL a)) :
+    lookupJoin lo (fun _ _ => Tri.t) rw kL idx L ~ nlJoin lo false c rw L R :=
+  lookupJoin_dropped_cond_perm lo c rw kL kR idx L R hidx H
+
+/-- Thousandths rounded to a whole number (half away from zero), as the conversion to BIGINT does. -/
+def roundK (v : Value) : Value :=
+  match v with
+  | .int n => .int (if n ≥ 0 then (n + 500) / 1000 * 1000 else -((-n + 500) / 1000 * 1000))
+  | v => v
+
+def numEq (a b : Row) : Tri := cmpTri .eq (a.getD 1 .null) (b.getD 1 .null)
+def lkL : List Row := [[.int 1, .int 3000], [.int 3, .int 2500]]
+def lkR : List Row := [[.int 1, .int 2000], [.int 2, .int 3000]]
+
+/-- t1(c1 DOUBLE) = {3.0, 2.5}, t2(c1 BIGINT UNSIGNED, KEY) = {2, 3} (in thousandths): the lookup
+join probes the index with 2.5 converted to 3 and, the equality having been removed as "implied by
+the lookup", returns (2.5, 3) as a match. -/
+theorem finding_lookup_join_probe_key_rounded :
+    ∃ (L R : List Row),
+      ¬ (lookupJoin false (fun _ _ => Tri.t) 2 (fun a => roundK (a.getD 1 .null))
+            (fun k => R.filter fun b => b.getD 1 .null = k) L ~ nlJoin false false numEq 2 L R) := by
+  refine ⟨lkL, lkR, ?_⟩
+  intro h
+  have := h.length_eq
+  revert this
+  decide
+
+/-- Non-vacuity of the guard: with the exact key the same lookup join is right. -/
+example : lookupJoin false (fun _ _ => Tri.t) 2 (fun a => a.getD 1 .null)
+      (fun k => lkR.filter fun b => b.getD 1 .null = k) lkL = nlJoin false false numEq 2 lkL lkR := by decide
+
+/-! ### Finding 7: semi join as inner join over a DISTINCT that is not by key equality -/
+
+/-- Guarded statement: the memo's rewrite `L ⋉ R = π_L (L ⋈ Distinct(R))` is sound when the
+de-duplicated right side `D` has, for every left row, a match iff `R` has one, and at most one. The
+full statement (for `D` = the rows of `R` distinct AS STORED) is FALSE:
+`finding_semi_join_distinct_not_by_key_equality`. -/
+theorem semi_as_distinct_inner_partial (m : Row → Row → Bool) (L R D : List Row)
+    (hany : ∀ a ∈ L, D.any (m a) = R.any (m a))
+    (hone : ∀ a ∈ L, (D.filter (m a)).length ≤ 1) :
+    (L.flatMap fun a => (D.filter (m a)).map fun _ => a) = semiJoin m L R :=
+  semi_as_inner_over_distinct m L R D hany hone
+
+def ciMatch (a b : Row) : Bool := cmpTri .eq (ciNorm (a.getD 0 .null)) (ciNorm (b.getD 0 .null)) == .t
+
+/-- `plan.Distinct` hashes rows without a schema (C07 `distinct_collation`): 'bob' and 'BOB' both
+survive, and the left row 'bób' comes out twice. -/
+theorem finding_semi_join_distinct_not_by_key_equality :
+    ∃ (L R : List Row),
+      (L.flatMap fun a => ((dedup R).filter (ciMatch a)).map fun _ => a) ≠ semiJoin ciMatch L R :=
+  ⟨[[sBob']], [[sBob], [sBOB], [sBob]], by decide⟩
+
+/-- Non-vacuity of the guard: de-duplicated by the normal form the rewrite is right on that input. -/
+example : ([[sBob']].flatMap fun a => ((dedup ([[sBob], [sBOB], [sBob]].map fun r => r.map ciNorm)).filter (ciMatch a)).map fun _ => a)
+    = semiJoin ciMatch [[sBob']] [[sBob], [sBOB], [sBob]] := by decide
+
+/-! ### Finding 8: NOT IN executed as a plain left outer join -/
+
+/-- Guarded statement: `Filter(right IS NULL, LeftOuterJoin)` — i.e. the anti join that treats NULL
+like FALSE (`AntiJoinIncludingNulls`, NOT EXISTS) — is the NOT IN anti join when the condition is
+never NULL. The full statement is FALSE as soon as a key is NULL: `finding_not_in_as_left_outer_join`. -/
+theorem notIn_as_leftOuter_partial (c : Row → Row → Tri) (L R : List Row)
+    (h : ∀ a ∈ L, ∀ b ∈ R, c a b ≠ .u) :
+    existsJoin true true c L R = existsJoin true false c L R := by
+  rw [phys_antiNulls, phys_anti]
+  unfold antiJoin
+  apply List.filter_congr
+  intro a ha
+  induction R with
+  | nil => rfl
+  | cons b R ih =>
+    have hb := h a ha b (by simp)
+    have ih' := ih (fun a' ha' b' hb' => h a' ha' b' (by simp [hb']))
+    simp only [List.all_cons, List.any_cons, Bool.not_or, ih']
+    cases hc : c a b <;> simp_all
+
+def keyEq0 (a b : Row) : Tri := cmpTri .eq (a.getD 0 .null) (b.getD 0 .null)
+
+/-- a = {1, NULL, 9}, b = {1, NULL}: `a.k NOT IN (SELECT b.k FROM b)` is never TRUE (b has a NULL);
+as `LeftOuterMergeJoin` / `LeftOuterLookupJoin` + `IS NULL` the rows NULL and 9 are returned. -/
+theorem finding_not_in_as_left_outer_join :
+    ∃ (L R : List Row), existsJoin true false keyEq0 L R ≠ existsJoin true true keyEq0 L R :=
+  ⟨[[.int 1], [.null], [.int 9]], [[.int 1], [.null]], by decide⟩
+
+/-! ### Finding 9: one `<=>` conjunct makes the index lookup NULL-safe for every key part -/
+
+/-- Guarded statement: a lookup join that keeps the residual `c'` and is keyed on `kL`/`kR` is the
+join on `c` when "`c` is TRUE" means "`c'` is TRUE and the index returns the row". It fails when the
+index also returns the rows whose key is NULL for a probe key NULL although `c` demands `=`:
+`finding_lookup_join_nullsafe_for_all_key_parts`. -/
+theorem phys_lookup_residual_partial {κ : Type} [DecidableEq κ] (lo : Bool) (c c' : Row → Row → Tri) (rw : Nat)
+    (kL kR : Row → κ) (idx : κ → List Row) (L R : List Row)
+    (hidx : ∀ k, idx k ~ R.filter (fun r => kR r = k))
+    (H : ∀ a ∈ L, ∀ b ∈ R, (c a b = .t ↔ (c' a b = .t ∧ kR b = kL a))) :
+    lookupJoin lo c' rw kL idx L ~ nlJoin lo false c rw L R :=
+  lookupJoin_residual_perm lo c c' rw kL kR idx L R hidx H
+
+def nsCond (a b : Row) : Tri :=
+  Tri.and (cmpTri .nseq (a.getD 0 .null) (b.getD 0 .null)) (cmpTri .eq (a.getD 1 .null) (b.getD 1 .null))
+def nsL : List Row := [[.int 7, .null], [.int 7, .int 5]]
+
+/-- t(c1, c3) = {(7, NULL), (7, 5)} joined with itself ON c1 <=> c1 AND c3 = c3: the lookup on the
+index of c3 is made NULL-safe by the `<=>` conjunct (the index returns the NULL-keyed row for the
+probe key NULL) and `c3 = c3` is dropped, so (7, NULL) finds itself. -/
+theorem finding_lookup_join_nullsafe_for_all_key_parts :
+    ∃ (L R : List Row),
+      ¬ (lookupJoin false (fun a b => cmpTri .nseq (a.getD 0 .null) (b.getD 0 .null)) 2 (fun a => a.getD 1 .null)
+            (fun k => R.filter fun b => b.getD 1 .null = k) L ~ nlJoin false false nsCond 2 L R) := by
+  refine ⟨nsL, nsL, ?_⟩
+  intro h
+  have := h.length_eq
+  revert this
+  decide
+
+end Keys
+
+/-! ## 6. Regenerated facts -/
 
 /-- The `lookupTableEntry` constants the model uses are the ones of the source. -/
 theorem entryBits_match :
